@@ -254,6 +254,11 @@ class LatestStatesKeeper(StatesKeeper):
 
     @override
     def append(self, path: Path) -> None:
+        # A path that is saved again (a state name that recurs) is tracked as its
+        # newest incarnation only: the older entry would make a later cleanup
+        # remove the directory that has just been written.
+        if path in self._state_paths:
+            self._state_paths.remove(path)
         return self._state_paths.append(path)
 
     @override
